@@ -294,7 +294,6 @@ func Packets(thorough bool, yield func(n *wire.N)) {
 			yield(IPv4(t.proto, ol, t.n.Clone()))
 		}
 	}
-	yield(IPv4(17, 0, nil))
 	// IPv6 x extension chains x final header
 	finals := []struct {
 		nh uint64
